@@ -11,13 +11,24 @@ package swagen31
 //@ emits validatedSpec(result0)
 
 // Placeholders: the three emitters change the document (any heap) but cause no event.
-//@ func GenerateSecuritySpec trusted havocs
-//@ func GenerateModelsSpec trusted havocs
-//@ func GenerateControllersSpec trusted havocs
+// assumed frame: the model emitter fills components.schemas and writes schema objects only
+//@ func GenerateModelsSpec trusted
+//@ modifies any(elems(map[string]*base.SchemaProxy)), any(base.Schema), any(elems([]*yaml.Node)), any(elems([]string))
 
-//@ func GenerateSpec props C08,C14 havocs
+// What is serialised: the document as it stands when RenderJSON is called (its literal parts are event arguments)
+//@ event rendered31(version string, title string, description string, tos string, infoVersion string, nservers int, url string) local
+//@ extern github.com/pb33f/libopenapi/datamodel/high/v3.Document.RenderJSON
+//@ emits rendered31(d.Version, d.Info.Title, d.Info.Description, d.Info.TermsOfService, d.Info.Version, len(d.Servers), d.Servers[0].URL)
+
+//@ func GenerateSpec props C08,C20,C01,C14
+//@ modifies any(v3.PathItem), any(elems(map[string]*v3.PathItem)), any(definitions.TypeMetadata.Name), any(elems(map[string]*v3.Response)), any(elems([]*v3.Parameter)), any(base.Schema.Format), any(base.Schema.ExclusiveMinimum), any(base.Schema.Minimum), any(base.Schema.ExclusiveMaximum), any(base.Schema.Maximum), any(base.Schema.MinLength), any(base.Schema.MaxLength), any(base.Schema.Pattern), any(base.Schema.MinItems), any(base.Schema.MaxItems), any(base.Schema.UniqueItems), any(base.Schema.Enum), any(elems([]*yaml.Node)), any(base.Schema.Description), any(base.Schema.Required), any(base.Schema.Properties), any(elems([]string)), any(elems(map[string]*base.SchemaProxy)), any(elems(map[string]*v3.MediaType)), any(base.Schema), any(elems(map[string]interface{})), any(elems([]interface{}))
 //@ requires config != nil
-//@ mayemit validatedSpec
+//@ requires swagtool.emittable(defs)
+//@ requires swagtool.uniqueSchemes(config.SecuritySchemes)
+//@ mayemit validatedSpec, rendered31, routeRegistered31
+// info and servers are those of the configuration, literally (C20); exactly the visible routes were registered (C01)
+//@ ensures literal: implies(result1 == nil, evcount(rendered31) == old(evcount(rendered31))+1 && evlast(rendered31, 0) == "3.1.0" && evlast(rendered31, 1) == old(config.Info.Title) && evlast(rendered31, 2) == old(config.Info.Description) && evlast(rendered31, 3) == old(config.Info.TermsOfService) && evlast(rendered31, 4) == old(config.Info.Version) && evlast(rendered31, 5) == 1 && evlast(rendered31, 6) == old(config.BaseURL))
+//@ ensures routes: implies(result1 == nil, evcount(routeRegistered31) == old(evcount(routeRegistered31)) + old(sumVisible31(defs, len(defs))))
 //@ ensures gate: implies(result1 == nil, evcount(validatedSpec) == old(evcount(validatedSpec))+1 && evlast(validatedSpec, 0))
 //@ ensures once: evcount(validatedSpec) <= old(evcount(validatedSpec))+1
 
@@ -32,7 +43,7 @@ package swagen31
 //@ func createOperation props C01,C11,C14
 //@ ensures result != nil && fresh(result)
 //@ ensures result.OperationId == route.OperationId && result.Deprecated != nil && *result.Deprecated == route.Deprecation.Deprecated && result.Description == route.Description
-//@ ensures len(result.Tags) == 1 && result.Tags[0] == def.Tag && len(result.Parameters) == 0 && result.Responses != nil && result.Responses.Codes != nil
+//@ ensures len(result.Tags) == 1 && result.Tags[0] == def.Tag && len(result.Parameters) == 0 && fresh(result.Parameters) && result.RequestBody == nil && result.Responses != nil && fresh(result.Responses) && result.Responses.Codes != nil && fresh(result.Responses.Codes) && result.Responses.Codes.OrderedMap != nil && fresh(result.Responses.Codes.OrderedMap)
 
 //@ func handleRouteParamDeprecation props C06,C14
 //@ requires specParam != nil
@@ -40,19 +51,30 @@ package swagen31
 //@ ensures specParam.Deprecated == (old(specParam.Deprecated) || routeParam.Deprecation.Deprecated)
 
 // the operation registered for a verb in a path item
-//@ spec opOf(item *v3.PathItem, verb string) *v3.Operation = ite(verb == "GET", item.Get, ite(verb == "POST", item.Post, ite(verb == "PUT", item.Put, ite(verb == "DELETE", item.Delete, ite(verb == "PATCH", item.Patch, ite(verb == "HEAD", item.Head, ite(verb == "OPTIONS", item.Options, item.Trace)))))))
+//@ spec opOf(item *v3.PathItem, verb string) *v3.Operation = ite(verb == "GET", item.Get, ite(verb == "POST", item.Post, ite(verb == "PUT", item.Put, ite(verb == "DELETE", item.Delete, ite(verb == "PATCH", item.Patch, ite(verb == "HEAD", item.Head, ite(verb == "OPTIONS", item.Options, ite(verb == "TRACE", item.Trace, nil))))))))
 //@ spec routeVerb31(verb string) bool = verb == "GET" || verb == "POST" || verb == "PUT" || verb == "DELETE" || verb == "PATCH" || verb == "HEAD" || verb == "OPTIONS" || verb == "TRACE"
 //@ spec fullPath(def definitions.ControllerMetadata, route definitions.RouteMetadata) string = common.RemoveDuplicateSlash(def.RestMetadata.Path + route.RestMetadata.Path)
 
 // The operation is registered under the normalised path and the route's verb; the operations already registered
 // under that path for other verbs, and all other paths, are kept.
+// ghost marker: one event per call of setNewRouteOperation (the only function whose frame contains path items)
+//@ event routeRegistered31(operationId string) local
 //@ func setNewRouteOperation props C01,C11,C14
+//@ emits routeRegistered31(route.OperationId)
 //@ requires doc != nil && operation != nil && implies(doc.Paths != nil, doc.Paths.PathItems != nil && doc.Paths.PathItems.OrderedMap != nil)
 //@ modifies doc.Paths, any(v3.PathItem), any(elems(map[string]*v3.PathItem))
-//@ ensures reg: doc.Paths != nil && indom(doc.Paths.PathItems, fullPath(def, route)) && doc.Paths.PathItems[fullPath(def, route)] != nil
+//@ ensures reg: doc.Paths != nil && indom(doc.Paths.PathItems, fullPath(def, route)) && doc.Paths.PathItems[fullPath(def, route)] != nil && allocated(doc.Paths.PathItems[fullPath(def, route)])
 //@ ensures verb: implies(routeVerb31(string(route.HttpVerb)), opOf(doc.Paths.PathItems[fullPath(def, route)], string(route.HttpVerb)) == operation)
 //@ ensures sameItem: implies(old(doc.Paths != nil && indom(doc.Paths.PathItems, fullPath(def, route)) && doc.Paths.PathItems[fullPath(def, route)] != nil), doc.Paths.PathItems[fullPath(def, route)] == old(doc.Paths.PathItems[fullPath(def, route)]))
-//@ ensures others: implies(old(doc.Paths != nil && indom(doc.Paths.PathItems, fullPath(def, route)) && doc.Paths.PathItems[fullPath(def, route)] != nil), forall(v, string, implies(routeVerb31(v) && v != string(route.HttpVerb), opOf(doc.Paths.PathItems[fullPath(def, route)], v) == old(opOf(doc.Paths.PathItems[fullPath(def, route)], v)))))
+// no other (path item, verb) registration changes: operations registered earlier are kept
+//@ ensures frameGet: forall(it, *v3.PathItem, implies(old(allocated(it)) && !(it == doc.Paths.PathItems[fullPath(def, route)] && string(route.HttpVerb) == "GET"), it.Get == old(it.Get)))
+//@ ensures framePost: forall(it, *v3.PathItem, implies(old(allocated(it)) && !(it == doc.Paths.PathItems[fullPath(def, route)] && string(route.HttpVerb) == "POST"), it.Post == old(it.Post)))
+//@ ensures framePut: forall(it, *v3.PathItem, implies(old(allocated(it)) && !(it == doc.Paths.PathItems[fullPath(def, route)] && string(route.HttpVerb) == "PUT"), it.Put == old(it.Put)))
+//@ ensures frameDelete: forall(it, *v3.PathItem, implies(old(allocated(it)) && !(it == doc.Paths.PathItems[fullPath(def, route)] && string(route.HttpVerb) == "DELETE"), it.Delete == old(it.Delete)))
+//@ ensures framePatch: forall(it, *v3.PathItem, implies(old(allocated(it)) && !(it == doc.Paths.PathItems[fullPath(def, route)] && string(route.HttpVerb) == "PATCH"), it.Patch == old(it.Patch)))
+//@ ensures frameHead: forall(it, *v3.PathItem, implies(old(allocated(it)) && !(it == doc.Paths.PathItems[fullPath(def, route)] && string(route.HttpVerb) == "HEAD"), it.Head == old(it.Head)))
+//@ ensures frameOptions: forall(it, *v3.PathItem, implies(old(allocated(it)) && !(it == doc.Paths.PathItems[fullPath(def, route)] && string(route.HttpVerb) == "OPTIONS"), it.Options == old(it.Options)))
+//@ ensures frameTrace: forall(it, *v3.PathItem, implies(old(allocated(it)) && !(it == doc.Paths.PathItems[fullPath(def, route)] && string(route.HttpVerb) == "TRACE"), it.Trace == old(it.Trace)))
 //@ ensures paths: implies(old(doc.Paths != nil), doc.Paths == old(doc.Paths) && forall(k, string, implies(k != fullPath(def, route), indom(doc.Paths.PathItems, k) == old(indom(doc.Paths.PathItems, k)) && doc.Paths.PathItems[k] == old(doc.Paths.PathItems[k]))))
 
 // assumed: schema construction by type name (recursion over type names, libopenapi constructors)
@@ -133,3 +155,61 @@ package swagen31
 //@ ensures undeclared: implies(len(route.Security) > 0 && exists(i, 0, len(route.Security), !altDeclared31(config.SecuritySchemes, route.Security[i])), result != nil)
 //@ loop 0 invariant 0 <= _n && _n <= len(routeSecurity) && len(securityRequirements) == _n && fresh(securityRequirements)
 //@ loop 0 invariant forall(i, 0, _n, altDocumented31(securityRequirements[i], routeSecurity[i]) && altDeclared31(config.SecuritySchemes, routeSecurity[i]))
+
+// ---- responses and the per-controller loop ----
+//@ func ToResponseDescription props C06,C14
+//@ ensures result == ite(description == "", " ", description)
+
+//@ func createErrorResponse props C06,C14
+//@ requires len(route.Responses) >= 1
+//@ modifies any(definitions.TypeMetadata.Name), any(base.Schema.Format), any(base.Schema.ExclusiveMinimum), any(base.Schema.Minimum), any(base.Schema.ExclusiveMaximum), any(base.Schema.Maximum), any(base.Schema.MinLength), any(base.Schema.MaxLength), any(base.Schema.Pattern), any(base.Schema.MinItems), any(base.Schema.MaxItems), any(base.Schema.UniqueItems), any(base.Schema.Enum), any(elems([]*yaml.Node))
+//@ ensures result != nil && fresh(result) && result.Content != nil
+
+//@ func createResponseSuccess props C06,C14
+//@ modifies any(base.Schema.Format), any(base.Schema.ExclusiveMinimum), any(base.Schema.Minimum), any(base.Schema.ExclusiveMaximum), any(base.Schema.Maximum), any(base.Schema.MinLength), any(base.Schema.MaxLength), any(base.Schema.Pattern), any(base.Schema.MinItems), any(base.Schema.MaxItems), any(base.Schema.UniqueItems), any(base.Schema.Enum), any(elems([]*yaml.Node))
+//@ ensures result != nil && fresh(result) && result.Description == ite(route.ResponseDescription == "", " ", route.ResponseDescription)
+
+//@ spec hidden31(r definitions.RouteMetadata) bool = r.Hiding.Type == definitions.HideMethodAlways
+//@ spec registered31(doc *v3.Document, def definitions.ControllerMetadata, r definitions.RouteMetadata) bool = doc.Paths != nil && indom(doc.Paths.PathItems, fullPath(def, r)) && doc.Paths.PathItems[fullPath(def, r)] != nil && implies(routeVerb31(string(r.HttpVerb)), opOf(doc.Paths.PathItems[fullPath(def, r)], string(r.HttpVerb)) != nil)
+//@ rec countVisible31(def definitions.ControllerMetadata, n int) int = ite(n <= 0, 0, countVisible31(def, n-1) + ite(hidden31(def.Routes[n-1]), 0, 1))
+//@ spec pathsShaped(doc *v3.Document) bool = implies(doc.Paths != nil, doc.Paths.PathItems != nil && doc.Paths.PathItems.OrderedMap != nil)
+
+// Every route that is not hidden ends up registered under its normalised path and verb (C01); routes were
+// validated upstream (a method has at least one return value; a body and a form never meet).
+//@ func generateControllerSpec props C01,C11,C14
+//@ requires doc != nil && config != nil && pathsShaped(doc)
+//@ requires forall(k, 0, len(def.Routes), len(def.Routes[k].Responses) >= 1 && swagtool.noBodyFormMix(def.Routes[k]))
+//@ modifies doc.Paths, any(v3.PathItem), any(elems(map[string]*v3.PathItem)), any(definitions.TypeMetadata.Name), any(elems(map[string]*v3.Response)), any(elems([]*v3.Parameter)), any(base.Schema.Format), any(base.Schema.ExclusiveMinimum), any(base.Schema.Minimum), any(base.Schema.ExclusiveMaximum), any(base.Schema.Maximum), any(base.Schema.MinLength), any(base.Schema.MaxLength), any(base.Schema.Pattern), any(base.Schema.MinItems), any(base.Schema.MaxItems), any(base.Schema.UniqueItems), any(base.Schema.Enum), any(elems([]*yaml.Node)), any(base.Schema.Description), any(base.Schema.Required), any(base.Schema.Properties), any(elems([]string)), any(elems(map[string]*base.SchemaProxy)), any(elems(map[string]*v3.MediaType))
+//@ ensures shaped: pathsShaped(doc)
+//@ mayemit routeRegistered31
+//@ ensures hiddenSkipped: implies(result == nil, evcount(routeRegistered31) == old(evcount(routeRegistered31)) + countVisible31(def, len(def.Routes)))
+//@ ensures visible: implies(result == nil, forall(k, 0, len(def.Routes), implies(!hidden31(def.Routes[k]), registered31(doc, def, def.Routes[k]))))
+//@ loop 0 invariant 0 <= _n && _n <= len(def.Routes) && pathsShaped(doc) && evcount(routeRegistered31) == old(evcount(routeRegistered31)) + countVisible31(def, _n)
+//@ loop 0 invariant forall(k, 0, _n, implies(!hidden31(def.Routes[k]), registered31(doc, def, def.Routes[k])))
+//@ loop 0 invariant forall(k, 0, _n, implies(!hidden31(def.Routes[k]), allocated(doc.Paths.PathItems[fullPath(def, def.Routes[k])])))
+
+
+//@ rec sumVisible31(defs []definitions.ControllerMetadata, n int) int = ite(n <= 0, 0, sumVisible31(defs, n-1) + countVisible31(defs[n-1], len(defs[n-1].Routes)))
+// All controllers: exactly the routes that are not hidden are registered (one registration per such route).
+//@ func GenerateControllersSpec props C01,C11,C14
+//@ requires doc != nil && config != nil && pathsShaped(doc)
+//@ requires swagtool.emittable(defs)
+//@ modifies doc.Paths, any(v3.PathItem), any(elems(map[string]*v3.PathItem)), any(definitions.TypeMetadata.Name), any(elems(map[string]*v3.Response)), any(elems([]*v3.Parameter)), any(base.Schema.Format), any(base.Schema.ExclusiveMinimum), any(base.Schema.Minimum), any(base.Schema.ExclusiveMaximum), any(base.Schema.Maximum), any(base.Schema.MinLength), any(base.Schema.MaxLength), any(base.Schema.Pattern), any(base.Schema.MinItems), any(base.Schema.MaxItems), any(base.Schema.UniqueItems), any(base.Schema.Enum), any(elems([]*yaml.Node)), any(base.Schema.Description), any(base.Schema.Required), any(base.Schema.Properties), any(elems([]string)), any(elems(map[string]*base.SchemaProxy)), any(elems(map[string]*v3.MediaType))
+//@ mayemit routeRegistered31
+//@ ensures shaped: implies(result == nil, pathsShaped(doc))
+//@ ensures count: implies(result == nil, evcount(routeRegistered31) == old(evcount(routeRegistered31)) + sumVisible31(defs, len(defs)))
+//@ loop 0 invariant 0 <= _n && _n <= len(defs) && pathsShaped(doc) && evcount(routeRegistered31) == old(evcount(routeRegistered31)) + sumVisible31(defs, _n)
+
+
+// ---- components.securitySchemes are those of the configuration, literally (C20, C04) ----
+//@ spec schemeDocumented31(m *orderedmap.Map[string, *v3.SecurityScheme], c definitions.SecuritySchemeConfig) bool = indom(m, c.SecurityName) && m[c.SecurityName] != nil && m[c.SecurityName].Type == string(c.Type) && m[c.SecurityName].In == string(c.In) && m[c.SecurityName].Name == c.FieldName && m[c.SecurityName].Description == c.Description
+//@ func GenerateSecuritySpec props C04,C20,C14
+//@ requires doc != nil && doc.Components != nil && securityConfig != nil
+//@ requires swagtool.uniqueSchemes(*securityConfig)
+//@ modifies doc.Components.SecuritySchemes
+//@ ensures result == nil && doc.Components.SecuritySchemes != nil
+//@ ensures literal: forall(k, 0, len(*securityConfig), schemeDocumented31(doc.Components.SecuritySchemes, (*securityConfig)[k]))
+//@ ensures only: forall(n, string, implies(indom(doc.Components.SecuritySchemes, n), exists(k, 0, len(*securityConfig), (*securityConfig)[k].SecurityName == n)))
+//@ loop 0 invariant 0 <= _n && _n <= len(*securityConfig) && securitySchemes != nil && fresh(securitySchemes) && securitySchemes.OrderedMap != nil && fresh(securitySchemes.OrderedMap)
+//@ loop 0 invariant forall(k, 0, _n, schemeDocumented31(securitySchemes, (*securityConfig)[k]) && fresh(securitySchemes[(*securityConfig)[k].SecurityName]))
+//@ loop 0 invariant forall(n, string, implies(indom(securitySchemes, n), exists(k, 0, _n, (*securityConfig)[k].SecurityName == n)))
